@@ -446,8 +446,11 @@ main(int argc, char *argv[])
 		} else if (strcmp(arg, "-pedantic") == 0) {
 			/* ignore */
 		} else if (strcmp(arg, "-pthread") == 0) {
-			arrayaddptr(&stages[LINK].cmd, "-l");
-			arrayaddptr(&stages[LINK].cmd, "pthread");
+			input = arrayadd(&inputs, sizeof(*input));
+			input->name = "pthread";
+			input->lib = true;
+			input->filetype = OBJ;
+			input->stages = 1<<LINK;
 		} else {
 			if (arg[2] != '\0' && strchr("cESsv", arg[1]))
 				usage(NULL);
